@@ -169,11 +169,15 @@ CHECKS = {
     "C10": dict(
         level="model_checking",
         mc=[dict(module="MC_Eip191", workers=16)],
-        gen=[dict(module="Gen_C10", slices=dict(quick=4, thorough=8))],
+        gen=[dict(module="Gen_C10", slices=dict(quick=4, thorough=8)),
+             dict(module="Gen_C10cli", slices=dict(quick=8, thorough=8))],
         rule="MC_Eip191: DecimalAscii(n) canonical and inverted by Atoi for every n in 0..20000 (quick) / 0..1000001 "
              "(thorough); Gen_C10: every message length 0..1100 with position dependent "
              "content, all 256 one-byte messages, non-UTF-8 and whitespace-only content, lengths 10^k-1, 10^k, 10^k+1 "
-             "for k = 4, 5 (quick) and 6 (thorough)",
+             "for k = 4, 5 (quick) and 6 (thorough); Gen_C10cli: `hash message` / `sign message` of the real binary on the "
+             "four input channels (regular file, stdin, named pipe, /dev/stdin) x content with 37 prefixes / suffixes that "
+             "text tools strip or translate (byte order marks, line ends, NUL, hex and option lead-ins, the EIP-191 "
+             "prefix itself) x 4 bodies, every length 0..70, every first byte",
         assumptions=["Keccak-256 is a trusted primitive"],
     ),
     "C13": dict(
